@@ -335,6 +335,8 @@ def check_output(ver, req_tokens, d):
             return "CIF 1.1: cif_write failed with code %d (only CIF_DISALLOWED_VALUE / CIF_DISALLOWED_CHAR are documented)" % rc
         if rc == CIF_DISALLOWED_VALUE and any(not key_quotable(k) for k in keys):
             return None
+        if rc in (CIF_DISALLOWED_VALUE, CIF_DISALLOWED_CHAR) and (any(13 in s for _, _, s in strings) or any(13 in k for k in keys)):
+            return None                               # a string holding a CR: outside the totality clause ("no CR")
         return "cif_write failed with code %d on a writable CIF" % rc
     data = out_bytes(d.get("out"))
     magic = b"#\\#CIF_1.1\n" if ver == 1 else b"#\\#CIF_2.0\n"
@@ -387,6 +389,13 @@ def known_class(ver, req_tokens, d):
         d2["back"] = d2["orig"]
         if check_output(ver, req_tokens, d2) is None:
             return "unquoted-overlong-line-comes-back-quoted"
+    # open finding F-cr-altered: a string (or key) holding a CR is written with the CR as it is; every reader takes the CR for
+    # (part of) a line terminator, so the content comes back altered (CR -> LF, CR LF -> LF, a final CR of a text field lost, a
+    # backslash before the CR read as a fold), and lines counted at LF only may look over-long.  Any oracle failure of a
+    # successful write of such a CIF is this finding (strings with CR are outside the property's totality clause).
+    _, strings, keys, _ = request_strings(req_tokens)
+    if any(13 in s for _, _, s in strings) or any(13 in k for k in keys):
+        return "cr-in-string-comes-back-lf"
     return None
 
 
